@@ -1,7 +1,8 @@
 """registry entry of C04 (Lean files carrying the obligations, correspondence script, labels)"""
 from reg._common import COMMON_ASSUME
 
-ENTRY = {'lean_files': ['Tables/C04.lean', 'Props/C04.lean', 'Props/C04Rounding.lean'],
+ENTRY = {'extractors': ['translate_f90.py'],
+    'lean_files': ['Tables/SrcF90Kernels.lean', 'Tables/C04.lean', 'Props/C04.lean', 'Props/C04Rounding.lean'],
  'lemma_files': ['Lemmas/Rounding.lean', 'Lemmas/RoundingMore.lean', 'Lemmas/Shift.lean',
                  'Lemmas/Bridge.lean',
                  'Lemmas/Subdivide.lean',
